@@ -139,6 +139,50 @@ def acc_of(c, value):
     return None
 
 
+def is_zero(c, e):
+    """0, or a zero of explicit width (Const(0, w)): the identity of |."""
+    e = c.norm(e)
+    if e[0] == 'call' and e[1] in (('name', 'Const'), ('name', 'C')) and e[2] and e[2][0] == ('const', 0):
+        return True
+    return e == ('const', 0)
+
+
+def check_acc(rep, rule, c, what, a, term_text, env, L, term_cond=None, outer=()):
+    """accumulator a == OR over all iterations of loop L of <term> (term only present under term_cond), starting from 0"""
+    site = c.fi.site
+    init0 = c.norm(a.init)
+    if init0[0] == 'call' and init0[1] in (('name', 'Const'), ('name', 'C')) and init0[2] and init0[2][0] == ('const', 0):
+        init0 = ('const', 0)                    # Const(0, w): a zero of explicit width is still the identity of |
+    if init0 != ('const', 0) or a.op != '|':
+        rep.bad(rule, site, what, f"OR-reduction starts from {c.show(a.init)} (must be 0)")
+        return False
+    want_term = c.parse(term_text, env)
+    ok = True
+    if len(a.terms) != 1:
+        rep.bad(rule, site, what, f"{len(a.terms)} kinds of term are OR-ed in; expected exactly the subordinate's own signal")
+        return False
+    term, tgen, tdsl, ln = a.terms[0]
+    if c.norm(term) != want_term:
+        other = [fr[1] for fr in tgen if fr[0] == 'for' and fr[1] != L.id and fr[1] not in outer]
+        extra = ""
+        if other and other[0] in c.t.loops:
+            extra = (f": the OR runs over {c.show(c.t.loops[other[0]].iter)}, not over the windows of the published map -- an entry of "
+                     "that collection without a window (its add_window() was refused) still contributes")
+        if extra and not _registry_store_precedes_window(c):
+            rep.unk(rule, site, what, f"term is {c.show(term)}; expected {ir.show(want_term)}: the OR runs over another collection and add() "
+                    "registers only after add_window() succeeded; whether both collections always agree is not decided")
+            return False
+        rep.bad(rule, site, what, f"term is {c.show(term)}; expected {ir.show(want_term)}{extra}", line=ln)
+        return False
+    tg = [(fr[0], c.norm(fr[1]), fr[2]) if fr[0] == 'pyif' else fr for fr in tgen]
+    want_tg = [('for', o) for o in outer] + [('for', L.id)] + ([] if term_cond is None else [('pyif', c.parse(term_cond, env), True)])
+    if tg != want_tg:
+        rep.bad(rule, site, what, "the term is not added for every subordinate (that has the signal): "
+                f"found context {[ir.show(g[1]) if g[0]=='pyif' else g for g in tg]}", line=ln)
+        return False
+    return True
+
+
 def check_fanin(rep, rule, c, what, target, term_text, env, L, bus_cond=None, term_cond=None, outer=()):
     """target == OR over all iterations of loop L of <term> (term only present under term_cond), driven comb
     under bus_cond only."""
@@ -167,32 +211,7 @@ def check_fanin(rep, rule, c, what, target, term_text, env, L, bus_cond=None, te
         else:
             rep.bad(rule, site, what, f"value {c.show(d.value)} is not a plain OR-reduction over the subordinates", line=d.lineno)
         return False
-    if c.norm(a.init) != ('const', 0) or a.op != '|':
-        rep.bad(rule, site, what, f"OR-reduction starts from {c.show(a.init)} (must be 0)")
-        return False
-    want_term = c.parse(term_text, env)
-    ok = True
-    if len(a.terms) != 1:
-        rep.bad(rule, site, what, f"{len(a.terms)} kinds of term are OR-ed in; expected exactly the subordinate's own signal")
-        return False
-    term, tgen, tdsl, ln = a.terms[0]
-    if c.norm(term) != want_term:
-        other = [fr[1] for fr in tgen if fr[0] == 'for' and fr[1] != L.id and fr[1] not in outer]
-        extra = ""
-        if other and other[0] in c.t.loops:
-            extra = (f": the OR runs over {c.show(c.t.loops[other[0]].iter)}, not over the windows of the published map -- an entry of "
-                     "that collection without a window (its add_window() was refused) still contributes")
-        if extra and not _registry_store_precedes_window(c):
-            rep.unk(rule, site, what, f"term is {c.show(term)}; expected {ir.show(want_term)}: the OR runs over another collection and add() "
-                    "registers only after add_window() succeeded; whether both collections always agree is not decided")
-            return False
-        rep.bad(rule, site, what, f"term is {c.show(term)}; expected {ir.show(want_term)}{extra}", line=ln)
-        return False
-    tg = [(fr[0], c.norm(fr[1]), fr[2]) if fr[0] == 'pyif' else fr for fr in tgen]
-    want_tg = [('for', o) for o in outer] + [('for', L.id)] + ([] if term_cond is None else [('pyif', c.parse(term_cond, env), True)])
-    if tg != want_tg:
-        rep.bad(rule, site, what, "the term is not added for every subordinate (that has the signal): "
-                f"found context {[ir.show(g[1]) if g[0]=='pyif' else g for g in tg]}", line=ln)
+    if not check_acc(rep, rule, c, what, a, term_text, env, L, term_cond=term_cond, outer=outer):
         return False
     rep.ok(rule, site, what, f"{target} = OR over subordinates of {term_text}")
     return True
